@@ -9,7 +9,7 @@ A message is described by a plain-JSON dict `spec`; every key is optional and th
     date           [style, "YYYY-MM-DDTHH:MM:SS"]   style in DATE_STYLES (offset / obsolete forms); local wall time
     message_id     "<id@host>" | None               in_reply_to likewise
     structure      one of STRUCTURES
-    charset        one of CHARSETS (label of every text part; "unknown-8bit" carries UTF-8 bytes)
+    charset        one of CHARSETS (label of every text part; "unknown-8bit" carries UTF-8 bytes) or of EXTRA_CHARSETS
     cte            "7bit" | "8bit" | "quoted-printable" | "base64"      (of every text part)
     body_plain, body_html    text with "\n" newlines
     attachments    [{"filename": str|None, "filename_style": "plain"|"rfc2231"|"rfc2047", "ctype": "type/sub",
@@ -73,6 +73,35 @@ CAPS = set(["subject:" + s for s in SUBJECT_STYLES] + ["date:" + s for s in DATE
             "line_end:crlf", "line_end:lf", "message_id", "in_reply_to", "cc", "bcc", "reply_to", "mbox"])
 
 _CODEC = {"us-ascii": "ascii", "utf-8": "utf-8", "iso-8859-1": "latin-1", "windows-1252": "cp1252", "unknown-8bit": "utf-8"}
+# Further charset labels accepted for spec["charset"] (and for the subject styles "cs-b:<label>" / "cs-q:<label>"): label -> Python
+# codec.  Additive: they are not part of CHARSETS / DOMAINS / deviations().  Groups: other single-byte charsets; multibyte 8-bit
+# charsets; 7-bit stateful charsets (their bytes are ASCII, hence also valid UTF-8); wide charsets (code units are not octets: only
+# base64 / quoted-printable can carry them, RFC 2045 2.7-2.8; no encoded-words); other spellings of the labels in CHARSETS.
+EXTRA_CHARSETS = {
+    "iso-8859-2": "iso8859_2", "iso-8859-5": "iso8859_5", "iso-8859-7": "iso8859_7", "iso-8859-8": "iso8859_8",
+    "iso-8859-9": "iso8859_9", "iso-8859-15": "iso8859_15", "windows-1250": "cp1250", "windows-1251": "cp1251",
+    "windows-1253": "cp1253", "windows-1255": "cp1255", "windows-1256": "cp1256", "koi8-r": "koi8_r", "koi8-u": "koi8_u",
+    "macintosh": "mac_roman", "ibm850": "cp850", "tis-620": "tis_620",
+    "shift_jis": "shift_jis", "euc-jp": "euc_jp", "gb2312": "gb2312", "gbk": "gbk", "gb18030": "gb18030", "big5": "big5",
+    "euc-kr": "euc_kr", "ks_c_5601-1987": "euc_kr",
+    "iso-2022-jp": "iso2022_jp", "iso-2022-kr": "iso2022_kr", "hz-gb-2312": "hz", "utf-7": "utf-7",
+    "utf-16": "utf-16", "utf-16le": "utf-16-le", "utf-16be": "utf-16-be", "utf-32": "utf-32", "utf-32be": "utf-32-be",
+    "UTF-8": "utf-8", "utf8": "utf-8", "ISO-8859-1": "latin-1", "latin1": "latin-1", "cp1252": "cp1252", "US-ASCII": "ascii",
+    "Shift_JIS": "shift_jis", "ISO-2022-JP": "iso2022_jp",
+}
+WIDE_CHARSETS = ("utf-16", "utf-16le", "utf-16be", "utf-32", "utf-32be")
+SEVENBIT_CHARSETS = ("iso-2022-jp", "iso-2022-kr", "hz-gb-2312", "utf-7", "ISO-2022-JP")
+
+
+def charset_codec(label: str) -> str:
+    """Python codec of a charset label of CHARSETS or EXTRA_CHARSETS."""
+    if label in _CODEC:
+        return _CODEC[label]
+    if label in EXTRA_CHARSETS:
+        return EXTRA_CHARSETS[label]
+    _nie("charset %r" % (label,))
+
+
 _DATE_OFFSET = {"+0000": 0, "-0500": -300, "+0530": 330, "2digit": 0, "gmt": 0, "no-seconds": 0, "comment": 60}
 _DOW = ("Mon", "Tue", "Wed", "Thu", "Fri", "Sat", "Sun")
 _MON = ("Jan", "Feb", "Mar", "Apr", "May", "Jun", "Jul", "Aug", "Sep", "Oct", "Nov", "Dec")
@@ -170,7 +199,7 @@ def full_spec(spec: dict | None) -> dict:
         _nie("inner is not rendered by structure %s" % st)
     if full["line_end"] not in ("\n", "\r\n"):
         _nie("line_end %r" % (full["line_end"],))
-    if full["charset"] not in CHARSETS:
+    if full["charset"] not in CHARSETS and full["charset"] not in EXTRA_CHARSETS:
         _nie("charset %r" % (full["charset"],))
     if full["cte"] not in CTES:
         _nie("cte %r" % (full["cte"],))
@@ -251,8 +280,13 @@ def _fold_text(prefix: str, text: str, limit: int) -> list:
 
 
 def _subject_lines(style: str, text: str) -> list:
+    generic = None
     if style not in SUBJECT_STYLES:
-        _nie("subject style %r" % (style,))
+        # additive styles "cs-b:<label>" / "cs-q:<label>": encoded-words in any octet charset of CHARSETS / EXTRA_CHARSETS
+        m = re.match(r"^cs-([bq]):(.+)$", style)
+        if not m or m.group(2) in WIDE_CHARSETS or m.group(2) == "unknown-8bit":
+            _nie("subject style %r" % (style,))
+        generic = (m.group(2), charset_codec(m.group(2)), m.group(1).upper())
     _no_ctl(text, "subject")
     if text != text.strip():
         _nie("subject with leading/trailing white space")
@@ -269,8 +303,8 @@ def _subject_lines(style: str, text: str) -> list:
         if style == "long-folded" and len(lines) < 3:
             _nie("long-folded subject that does not fold at least twice")
         return lines
-    label, codec, enc = {"utf8-b": ("utf-8", "utf-8", "B"), "utf8-q": ("utf-8", "utf-8", "Q"),
-                         "latin1-q": ("iso-8859-1", "latin-1", "Q")}[style]
+    label, codec, enc = generic or {"utf8-b": ("utf-8", "utf-8", "B"), "utf8-q": ("utf-8", "utf-8", "Q"),
+                                    "latin1-q": ("iso-8859-1", "latin-1", "Q")}[style]
     words = _encoded_words(text, label, codec, enc, first_max=76 - len("Subject: "))
     return ["Subject: " + words[0]] + [" " + w for w in words[1:]]
 
@@ -460,11 +494,16 @@ def _b64(data: bytes) -> bytes:
 def _text_payload(text: str, charset: str, cte: str) -> bytes:
     if "\r" in text:
         _nie("CR in body text")
-    codec = _CODEC[charset]
+    codec = charset_codec(charset)
     try:
         raw = text.encode(codec)
     except UnicodeEncodeError:
         _nie("body text not encodable in %s" % charset)
+    if charset in WIDE_CHARSETS:
+        if cte in ("7bit", "8bit"):
+            _nie("charset %s with cte %s (code units are not octets)" % (charset, cte))
+        if cte == "quoted-printable":
+            return _qp_binary(raw)                                              # line breaks are code units too: =0A=00 ...
     if cte in ("7bit", "8bit"):
         if b"\0" in raw:
             _nie("NUL in %s body" % cte)
